@@ -5,11 +5,20 @@
     c02_rows_sound     every returned row is the projection of a satisfying assignment
     c02_rows_complete  the projection of every satisfying assignment is returned
     c02_rows_nodup     when every variable is selected no row is returned twice
+    c02_l2_all_selected  the same at the STATEFUL layer (L2 machine, `Machine.lean`: the evaluator
+                       with its duplicate-tracking sets, result cache disabled): when every variable
+                       of the condition is selected, every one of any number of consecutive
+                       evaluations of the query object returns exactly the L1 rows, in order - the
+                       duplicate check never fires (induction over the tree with the invariant
+                       "every stored duplicate key clashes with the binding being evaluated",
+                       `Lemmas/MachineNoDup.lean`); hence sound, complete and duplicate-free too
+                       (c02_l2_nodup)
   Scope: flatten-free queries (flatten is C16); `c02_rows_sound` needs the hypothesis that every
   variable that is not selected has a non-empty domain — at the excluded point the implementation
   really differs from the relational reading (known finding C02-F1, `c02_empty_domain_witness`).
 -/
 import EqlModel.Lemmas.Disjoint
+import EqlModel.Lemmas.MachineNoDup
 import EqlModel.NatWorld
 
 namespace Eql
@@ -216,5 +225,39 @@ example :
     let D : VarId → List Nat := fun v => if v = 0 then [1, 2, 3] else [2, 3, 4]
     rows natWorld D ⟨[.var 0, .var 1], some (.and (.cmp .lt (.var 0) (.var 1)) (.cmp .ne (.var 1) (.lit 4)))⟩
       = [[1, 2], [1, 3], [2, 3]] := by decide
+
+/-- **C02 at the stateful layer.**  With the result cache disabled and every variable of the condition
+    selected, the evaluator WITH its duplicate tracking returns, on the first and on every later
+    evaluation of the same query object, exactly the rows of the L1 evaluation (in order). -/
+theorem c02_l2_all_selected [BEq V] (P : Machine.Params V) (hinj : Function.Injective P.rank)
+    (hK : KeysNodup P.toKey D) (q : Query V) (c : Cond V) (hq : q.cond = some c) (hf : c.noFlat = true)
+    (hall : ∀ v ∈ c.vars, v ∈ q.sel.flatMap Term.binds) (n : Nat) :
+    (Machine.rowsM W D P false q (Machine.afterEvals W D P q n [])).1 = rows W D q :=
+  Machine.rowsM_off_all_selected_iter W D P hinj hK q c hq hf hall n [] Machine.dedupClean_nil
+
+/-- … in particular no row is returned twice (with `c02_rows_nodup`). -/
+theorem c02_l2_nodup [BEq V] [Inhabited V] (P : Machine.Params V) (hinj : Function.Injective P.rank)
+    (hK : KeysNodup P.toKey D) (hD : ∀ v, (D v).Nodup) (q : Query V) (c : Cond V) (hq : q.cond = some c)
+    (hf : q.noFlat = true) (vs : List VarId) (hsel : q.sel = vs.map Term.var) (hall : ∀ v ∈ c.vars, v ∈ vs)
+    (n : Nat) :
+    (Machine.rowsM W D P false q (Machine.afterEvals W D P q n [])).1.Nodup := by
+  have hfc : c.noFlat = true := by
+    simp only [Query.noFlat, hq, Bool.and_eq_true] at hf; exact hf.2
+  have hall' : ∀ v ∈ c.vars, v ∈ q.sel.flatMap Term.binds := by
+    intro v hv
+    rw [hsel]
+    simp only [List.mem_flatMap, List.mem_map]
+    exact ⟨.var v, ⟨v, hall v hv, rfl⟩, by simp [Term.binds]⟩
+  rw [c02_l2_all_selected W D P hinj hK q c hq hfc hall' n]
+  exact c02_rows_nodup W D q hf hD vs hsel (by simpa [Query.condVars, hq] using hall)
+
+/-- Non-vacuity: a disjunction over two selected variables (duplicate tracking is active on the right
+    branch of the ElseIf); three evaluations in a row give the L1 rows. -/
+example :
+    let D : VarId → List Nat := fun v => if v = 0 then [1, 2] else [2, 3]
+    let P : Machine.Params Nat := { rank := id, toKey := id, ofKey := id }
+    let q : Query Nat := ⟨[.var 0, .var 1], some (.elseIf (.cmp .lt (.var 0) (.var 1)) (.cmp .eq (.var 0) (.var 1)))⟩
+    (Machine.rowsM natWorld D P false q (Machine.afterEvals natWorld D P q 2 [])).1 = rows natWorld D q ∧
+    rows natWorld D q = [[1, 2], [1, 3], [2, 2], [2, 3]] := by decide
 
 end Eql
